@@ -79,14 +79,27 @@ func DeleteAllSigner(store sdk.KVStore) error {
 	defer iterator.Close()
 	for ; iterator.Valid(); iterator.Next() {
 		iterKey := iterator.Key()
-		keys := strings.Split(string(iterKey), "/")
-		height, err := clienttypes.ParseHeight(keys[1])
+		height, err := parseRecentSignerKey(iterKey)
 		if err != nil {
 			return err
 		}
 		DeleteSigner(store, height)
 	}
 	return nil
+}
+
+// parseRecentSignerKey returns the height of a key written by SetSigner ("recentSingers/<height>").
+// Keys under the prefix can also come from imported genesis metadata, which is not validated per client
+// type: a key without the separator must be an error, not an index out of range.
+func parseRecentSignerKey(key []byte) (clienttypes.Height, error) {
+	keys := strings.Split(string(key), "/")
+	if len(keys) != 2 {
+		return clienttypes.Height{}, sdkerrors.Wrapf(
+			clienttypes.ErrInvalidClientMetadata,
+			"malformed recent signer key %q", string(key),
+		)
+	}
+	return clienttypes.ParseHeight(keys[1])
 }
 
 // GetRecentSigners retrieves the recent singer list from the client prefixed
@@ -96,8 +109,7 @@ func GetRecentSigners(store sdk.KVStore) (recentSingers []Signer, err error) {
 
 	for ; iterator.Valid(); iterator.Next() {
 		iterKey := iterator.Key()
-		keys := strings.Split(string(iterKey), "/")
-		height, err := clienttypes.ParseHeight(keys[1])
+		height, err := parseRecentSignerKey(iterKey)
 		if err != nil {
 			return nil, err
 		}
